@@ -83,6 +83,7 @@ def run(prog, chk):
     utf8_boundary(prog, chk)
     infinite_iterators(prog, chk, reach)
     retry_amplification(prog, chk)
+    retry_novelty(prog, chk)
     from props import C17
     C17.scope_var_limit(prog, chk)  # unbounded growth of scope variables is memory exhaustion (abort)
     C17.limits_wiring(prog, chk)  # the limits the termination argument rests on are the ones the front-ends configure
@@ -433,6 +434,34 @@ def retry_amplification(prog, chk):
                     if (b.reach([tt], avoid={h}) & exits) or (b.reach([ft], avoid={h}) & exits):
                         shared = True
     chk.ob(shared, "A4.retry-amplification", "process_tags", b.where(h), "the retry loop on the element-nesting cycle goes round again only if progress recorded in the shared context has advanced (passes do not multiply per nesting level)", "process_tags (a retry loop on the recursive element-nesting cycle) decides to retry from its own local lists only: an unresolvable element inside N nested containers is re-evaluated at every level - 2^N evaluations within the depth limit (time not proportional to the document)")
+
+
+def retry_novelty(prog, chk):
+    """the measure of progress that licenses another pass advances only for *new* information: if it also advances when
+    an element that was already resolved in an earlier run of the same container is resolved again, a failing container
+    that is followed by a resolving sibling is re-run at every nesting level (2^N within the depth limit)"""
+    CTX = "svgdx::context::TransformerContext::"
+    b = prog.body("svgdx::transform::process_tags")
+    setters = []
+    for (bb, t, c) in b.call_sites(lambda c: c.path.startswith(CTX)):
+        sb = prog.maybe_body(c.path)
+        if sb is None or len(t["args"]) > 2:
+            continue
+        # a context method that does nothing but add a constant to a field of the context
+        incr = [st for _, _, st in sb.all_stmts() if (st.get("rv") or {}).get("k") == "binop" and st["rv"].get("op") in ("AddWithOverflow", "Add") and isinstance((st["rv"].get("b") or {}).get("k"), dict)]
+        branches = [x for x in sb.reachable if sb.term(x)["k"] == "switch"]
+        calls = list(sb.calls())
+        if incr and not branches and not calls:
+            setters.append((bb, t, sb))
+    for (bb, t, sb) in setters:
+        chk.bad(
+            "A4.retry-amplification",
+            f"process_tags:{sb.short.split('::')[-1]}:novelty",
+            b.where(bb, t.get("line")),
+            f"the progress that licenses another pass of process_tags is a plain count of successful elements ({sb.short}): an element resolved again in a re-run of its container counts as progress again, so a failing container followed by a resolving sibling is run twice at every nesting level - an unresolvable reference inside N nested groups, each followed by a sibling element, is evaluated 2^N times (N <= depth limit 100)",
+        )
+    if not setters:
+        chk.ok("A4.retry-amplification", "process_tags:novelty", b.where(), "no plain success counter feeds the retry decision")
 
 
 def iterator_driven_header(body, h, blocks):
